@@ -114,13 +114,14 @@ KeyStr(k) == ToString(k[1]) \o ":" \o k[2]
 
 Outcome(fs, op, L, dup, Tgt(_, _)) ==
     LET keys == RefKeys(fs, L)
-        undef == \E k \in keys : Tgt(k[1], k[2]).t = "undefined"
+        tg == [k \in keys |-> Tgt(k[1], k[2])]
+        undef == \E k \in keys : tg[k].t = "undefined"
         err == IF dup THEN "duplicate" ELSE IF undef THEN "undefined" ELSE "none"
     IN [error |-> err,
         loaded |-> {f \in L : ~Shared(fs, f)} \cup AsNeededUsed(fs, op, L) \cup {f \in FIdx(fs) : fs[f].kind = "shared"},
         bind |-> IF err # "none" THEN [k \in {} |-> ""]
                  ELSE [s \in {KeyStr(k) : k \in keys} |->
-                          LET k == CHOOSE k \in keys : KeyStr(k) = s IN TargetStr(Tgt(k[1], k[2]))]]
+                          LET k == CHOOSE k \in keys : KeyStr(k) = s IN TargetStr(tg[k])]]
 
 -----------------------------------------------------------------------------
 (* LFP: least fixpoint of archive loading.  Provider(n) = the first definition of n on the command
@@ -229,10 +230,10 @@ CommonLazyClass(fs) ==
         f # g /\ IsCommon(D(fs, f, n)) /\ ~IsCommon(D(fs, g, n)) /\ fs[g].kind = "member"
 
 (* The reference outcome: ElfRule on the sequentially loaded set. *)
-RuleOutcome(fs, op) ==
-    LET L == ScanLoaded(fs, op)
-        T(f, n) == RefTarget(fs, op, L, f, n)
+RuleOutcomeOn(fs, op, L) ==
+    LET T(f, n) == RefTarget(fs, op, L, f, n)
     IN Outcome(fs, op, L, ElfDuplicate(fs, op, L), T)
+RuleOutcome(fs, op) == RuleOutcomeOn(fs, op, ScanLoaded(fs, op))
 
 (* The incremental resolution of the scan agrees with the declarative ElfRule on the final loaded
    set (sanity of the reference itself). *)
@@ -316,9 +317,9 @@ Selected(fs, op, Q, L, s) ==
        ELSE IF b # 0 THEN Sym(b, s.n)
        ELSE IF anyl # {} THEN Sym(MinOf(anyl), s.n)
        ELSE s
-WDuplicate(fs, op, L) ==
+WDuplicate(fs, op, Q, L) ==
     ~op.allowMultiple /\
-    \E n \in NameSet : Cardinality({f \in Definers(fs, n) : f \in L /\ ~Shared(fs, f) /\ D(fs, f, n) = "strong"}) >= 2
+    \E n \in NameSet : Cardinality({f \in Definers(fs, n) : f \in L /\ ~Shared(fs, f) /\ StrClass(Q, D(fs, f, n)) = "strong"}) >= 2
 
 (* final binding of the reference to n in loaded regular file f: definition() is two lookups *)
 WTarget(fs, op, Q, L, f, n) ==
@@ -338,34 +339,58 @@ WTarget(fs, op, Q, L, f, n) ==
 
 WOutcomeOn(fs, op, Q, L) ==
     LET T(f, n) == WTarget(fs, op, Q, L, f, n)
-        o == Outcome(fs, op, L, WDuplicate(fs, op, L), T)
+        o == Outcome(fs, op, L, WDuplicate(fs, op, Q, L), T)
     IN [o EXCEPT !.loaded = L]
 WOutcome(fs, op, Q) == WOutcomeOn(fs, op, Q, WLoaded(fs, op, Q))
 
 (* Which quirks matter for this configuration: switching the quirk off changes the outcome. *)
-QuirkCauses(fs, op) == {q \in AllQuirks : WOutcome(fs, op, AllQuirks \ {q}) # WOutcome(fs, op, AllQuirks)}
+QuirkRelevant(fs, op) ==
+    {q \in AllQuirks :
+        \/ q = "wrapNoDef" /\ op.wrap # {}
+        \/ q = "uniqWeak" /\ \E f \in FIdx(fs), n \in NameSet : D(fs, f, n) = "unique"
+        \/ q = "weakZero" /\ \E f \in FIdx(fs), n \in NameSet : D(fs, f, n) = "weakundef"}
+QuirkCausesGiven(fs, op, model) ==
+    {q \in QuirkRelevant(fs, op) : WOutcome(fs, op, AllQuirks \ {q}) # model}
+QuirkCauses(fs, op) == QuirkCausesGiven(fs, op, WOutcome(fs, op, AllQuirks))
 
-(* The design (all quirks off) agrees with the reference rule whenever the fixpoint and the
-   sequential reading load the same files.  Compared: error class, loaded regular files, bindings. *)
-Proj(o, fs) == [error |-> o.error, loaded |-> {f \in o.loaded : ~Shared(fs, f)}, bind |-> o.bind]
-DesignAgrees(fs, op) ==
-    LET L == WLoaded(fs, op, {})
-    IN L = ScanLoaded(fs, op) => Proj(WOutcome(fs, op, {}), fs) = Proj(RuleOutcome(fs, op), fs)
-LoadDivergenceExplained(fs, op) ==
-    WLoaded(fs, op, {}) # ScanLoaded(fs, op) => ShadowClass(fs) \/ CommonLazyClass(fs)
-FixpointsAgree(fs, op) ==
-    {f \in WLoaded(fs, op, {}) : ~Shared(fs, f)} = {f \in LFP(fs, op) : ~Shared(fs, f)}
+RegOnly(fs, L) == {f \in L : ~Shared(fs, f)}
+Proj(o, fs) == [error |-> o.error, loaded |-> RegOnly(fs, o.loaded), bind |-> o.bind]
+
+(* Everything that is a function of the configuration alone, computed once.  The theorems:
+   ThScanElf   the incremental resolution of the scan agrees with the declarative ElfRule
+   ThFixpoints wild's design fixpoint (over its name table, quirks off) = the declarative LFP
+   ThLoadDiv   the fixpoint and the sequential reading load the same regular files except in the
+               shadowed-lazy-definition / common-meets-lazy classes
+   ThDesign    where they load the same files, the design (all quirks off) yields the rule's outcome:
+               error class, loaded regular files, binding of every reference *)
+Analysis(fs, op, wantAll) ==
+    LET sl == ScanLoaded(fs, op)
+        w0 == WLoaded(fs, op, {})
+        rule == RuleOutcomeOn(fs, op, sl)
+        design == WOutcomeOn(fs, op, {}, w0)
+        model == WOutcomeOn(fs, op, AllQuirks, wantAll)
+        sameLoaded == RegOnly(fs, w0) = RegOnly(fs, sl)
+    IN [rule |-> rule, model |-> model,
+        causes |-> QuirkCausesGiven(fs, op, model),
+        loadDiv |-> RegOnly(fs, wantAll) # RegOnly(fs, sl),
+        shadow |-> ShadowClass(fs), commonLazy |-> CommonLazyClass(fs),
+        thScanElf |-> ScanAgreesWithElfRule(fs, op),
+        thFixpoints |-> RegOnly(fs, w0) = RegOnly(fs, LFP(fs, op)),
+        thLoadDiv |-> sameLoaded \/ ShadowClass(fs) \/ CommonLazyClass(fs),
+        thDesign |-> sameLoaded => Proj(design, fs) = Proj(rule, fs)]
 
 -----------------------------------------------------------------------------
 (* Part 3: the activation protocol (resolution.rs: process_object / resolve_symbol /
    try_request_file_id / AtomicTake).  One task per loaded file walks its request sequence; a
    request is a cheap read (is_taken) followed by the atomic take; the winner runs work_items_do
    (counted in loads) and spawns the file's task. *)
-VARIABLES files, opts, taken, loads, pc, saw, phase
-vars == <<files, opts, taken, loads, pc, saw, phase>>
+VARIABLES files, opts, taken, loads, pc, saw, phase,
+          req,    \* req[t]: the request sequence of task t (a function of the configuration, cached)
+          want    \* the fixpoint the activation must reach (cached)
+vars == <<files, opts, taken, loads, pc, saw, phase, req, want>>
 
 Tasks == 0..NF(files)
-Req(t) == ReqSeq(files, opts, AllQuirks, t)
+Req(t) == req[t]
 
 Init ==
     /\ files \in ConfigSpace
@@ -374,7 +399,18 @@ Init ==
     /\ loads = [f \in FIdx(files) |-> IF Optional(files, f) THEN 0 ELSE 1]
     /\ pc = [t \in 0..NF(files) |-> IF t = 0 \/ ~Optional(files, t) THEN 1 ELSE 0]
     /\ saw = [t \in 0..NF(files) |-> "none"]
-    /\ phase = "activate"
+    /\ phase = "start"
+    /\ req = <<>>
+    /\ want = {}
+
+(* a separate first step, so that TLC's workers (not the single-threaded computation of initial
+   states) evaluate the per-configuration theorems *)
+Start ==
+    /\ phase = "start"
+    /\ phase' = "activate"
+    /\ req' = [t \in 0..NF(files) |-> ReqSeq(files, opts, AllQuirks, t)]
+    /\ want' = WLoaded(files, opts, AllQuirks)
+    /\ UNCHANGED <<files, opts, taken, loads, pc, saw>>
 
 Running(t) == pc[t] >= 1 /\ pc[t] <= Len(Req(t))
 
@@ -386,7 +422,7 @@ Peek(t) ==
                /\ UNCHANGED saw
           ELSE /\ saw' = [saw EXCEPT ![t] = "free"]
                /\ UNCHANGED pc
-    /\ UNCHANGED <<files, opts, taken, loads, phase>>
+    /\ UNCHANGED <<files, opts, taken, loads, phase, req, want>>
 
 Take(t) ==
     /\ phase = "activate" /\ Running(t) /\ saw[t] = "free"
@@ -398,35 +434,38 @@ Take(t) ==
           ELSE /\ pc' = [pc EXCEPT ![t] = @ + 1]           \* another thread beat us to it
                /\ UNCHANGED <<taken, loads>>
     /\ saw' = [saw EXCEPT ![t] = "none"]
-    /\ UNCHANGED <<files, opts, phase>>
+    /\ UNCHANGED <<files, opts, phase, req, want>>
 
 Finish ==
     /\ phase = "activate"
     /\ \A t \in Tasks : ~Running(t)
     /\ phase' = "done"
-    /\ UNCHANGED <<files, opts, taken, loads, pc, saw>>
+    /\ UNCHANGED <<files, opts, taken, loads, pc, saw, req, want>>
 
-Next == (\E t \in Tasks : Peek(t) \/ Take(t)) \/ Finish
+PeekAny == \E t \in Tasks : Peek(t)
+TakeAny == \E t \in Tasks : Take(t)
+Next == Start \/ PeekAny \/ TakeAny \/ Finish
 Spec == Init /\ [][Next]_vars
 FairSpec == Spec /\ WF_vars(Next)
 
 Loaded == {f \in FIdx(files) : loads[f] >= 1}
 Done == phase = "done"
 
-TypeOK == /\ phase \in {"activate", "done"}
+TypeOK == /\ phase \in {"start", "activate", "done"}
           /\ \A f \in FIdx(files) : loads[f] \in 0..3
 (* C03: work_items_do runs at most once per file, and only for files whose take succeeded *)
 LoadedOnce == \A f \in FIdx(files) : loads[f] <= 1 /\ (loads[f] = 1 => taken[f])
 (* nothing is ever loaded that the fixpoint does not contain *)
-LoadedSound == Loaded \subseteq WLoaded(files, opts, AllQuirks)
+LoadedSound == phase # "start" => Loaded \subseteq want
 (* confluence: whatever the interleaving, the terminal loaded set is the fixpoint *)
-Confluence == Done => Loaded = WLoaded(files, opts, AllQuirks)
+Confluence == Done => Loaded = want
 (* the three static theorems, evaluated once per configuration (in the initial state) *)
 IsInitial == phase = "activate" /\ \A t \in Tasks : pc[t] <= 1 /\ saw[t] = "none"
                 /\ \A f \in FIdx(files) : loads[f] = (IF Optional(files, f) THEN 0 ELSE 1)
-ThScanElf == IsInitial => ScanAgreesWithElfRule(files, opts)
-ThDesign == IsInitial => DesignAgrees(files, opts)
-ThLoadDiv == IsInitial => LoadDivergenceExplained(files, opts)
-ThFixpoints == IsInitial => FixpointsAgree(files, opts)
+Theorems(an) ==
+    /\ Assert(an.thScanElf, <<"ThScanElf fails", files, opts>>)
+    /\ Assert(an.thFixpoints, <<"ThFixpoints fails", files, opts>>)
+    /\ Assert(an.thLoadDiv, <<"ThLoadDiv fails", files, opts>>)
+    /\ Assert(an.thDesign, <<"ThDesign fails", files, opts, an.rule>>)
 Termination == <>Done
 =============================================================================
